@@ -71,6 +71,12 @@ def check_traces(rep, tracefile, sc, label):
     n = len(lines)
     if n == 0:
         return 0
+    for ln in lines:
+        tr_ = json.loads(ln)
+        for sv in tr_.get("bodies_without_serve_event", []):
+            if not (sv.get("boundary") and sv.get("cont")):
+                rep.violation("served:orphan:%s" % tr_["cfg"].get("integrator"), "a served body that no serve event accounts for is not a step-boundary state / does not continue bit for bit: %s (%s)"
+                              % (json.dumps(sv), tr_["cfg"]), {"cfg": tr_["cfg"], "body": sv})
     acc, res = validate(tracefile, "all")
     if res.violation:
         st = "\n".join(res.trace[-1:])
